@@ -82,6 +82,20 @@ def psd_kernel(r, N, rank, amp=3):
     return [[Fraction(sum(F[i][k] * F[j][k] for k in range(rank))) for j in range(N)] for i in range(N)]
 
 
+def centred_is_zero(M):
+    """is the double-centred square matrix (exact Fractions) identically zero?"""
+    n = len(M)
+    if n == 0:
+        return True
+    col = [sum(M[i][j] for i in range(n)) / n for j in range(n)]
+    g = sum(col) / n
+    return all(M[i][j] + g - col[j] - col[i] == 0 for i in range(n) for j in range(n))
+
+
+def rows_identical(rows):
+    return all(r == rows[0] for r in rows)
+
+
 def nan_columns(mat_text_value):
     """(set of columns containing a non-finite token, text with those tokens replaced by 0)"""
     cols = set()
